@@ -511,13 +511,3 @@ def _known_partitioned_indexed_forms(case, vio):
 
 KNOWN["to_buffers_partitioned_indexed_forms"] = _known_partitioned_indexed_forms
 
-
-def _known_packed_masked_record(case, vio):
-    """ak.packed (used by pickling) on a byte/bit-masked array over records below a ListArray: the carry that compacts the list
-    leaves ByteMaskedArray(IndexedArray64(RecordArray)) (finding masked_lazy_carry), whose simplify() is an IndexedOptionArray64,
-    on which _pack_layout calls toIndexedOptionArray64()"""
-    return ("has no attribute 'toIndexedOptionArray64'" in vio.get("message", "") and "desc" in case
-            and K.masked_over_record(case["desc"]))
-
-
-KNOWN["packed_masked_over_record"] = _known_packed_masked_record
